@@ -14,7 +14,8 @@ fn c18b_lzip_option_clamps() {
         lzma_options: LZMAOptions::new(dict, lc, lp, pb, EncodeMode::Fast, 32, MFType::HC4, 4),
         member_size: NonZeroU64::new(ms),
     };
-    let w = LZIPWriter::new(Sink::<1>::new(), o);
+    let mut sink = Sink::<1>::new();
+    let w = LZIPWriter::new(&mut sink, o);
     let d = w.options.lzma_options.dict_size;
     assert!(d >= MIN_DICT_SIZE && d <= MAX_DICT_SIZE);
     assert!(d == dict || dict < MIN_DICT_SIZE || dict > MAX_DICT_SIZE);
@@ -42,7 +43,8 @@ fn c03b_lzip_member_header() {
         lzma_options: LZMAOptions::new(dict, 3, 0, 2, EncodeMode::Fast, 32, MFType::HC4, 4),
         member_size: None,
     };
-    let mut w = LZIPWriter::new(Sink::<16>::new(), o);
+    let mut sink = Sink::<16>::new();
+    let mut w = LZIPWriter::new(&mut sink, o);
     assert!(w.start_new_member().is_ok());
     let lw = w.lzma_writer.take().unwrap();
     let counting = lw.into_inner();
